@@ -1,5 +1,7 @@
 """C02 — height bounds, borehole cap, unmet-design policy, exception discipline."""
 from searchchecks import *
+import re
+from fractions import Fraction
 
 
 def e2e_oracle(chk, r):
@@ -45,7 +47,7 @@ def configs(tier):
 
 
 def run(chk):
-    return run_search_check(chk, "C02", "C02", configs(chk.tier), e2e_oracle)
+    return run_search_check(chk, "C02", "C02", configs(chk.tier), e2e_oracle, extra=rowwise_decisions, extra_models=["Model/RowSearch"])
 
 
 def replay(payload):
